@@ -84,9 +84,19 @@ namespace Coll
 
 def empty : Coll := ⟨[], Index.empty⟩
 
-/-- `add_*_safe` (Map.set: an existing id is overwritten, its old index entries are NOT touched) -/
-def add (parent : Cell → Cell) (c : Coll) (e : Ent) : Coll :=
+/-- the index/entity part of `add_*_safe` for an id that is not present -/
+def addFresh (parent : Cell → Cell) (c : Coll) (e : Ent) : Coll :=
   { ents := upsert Ent.id c.ents e, ix := Index.add parent c.ix e.cell e.id }
+
+/-- `add_*_safe`: an id that is already present is removed first (so that its old index entries
+    disappear), then added -/
+def add (parent : Cell → Cell) (c : Coll) (e : Ent) : Outcome Coll :=
+  match lookup Ent.id c.ents e.id with
+  | none => .ok (addFresh parent c e)
+  | some old =>
+    match Index.remove parent c.ix old.cell e.id with
+    | none => .error
+    | some ix => .ok (addFresh parent { ents := removeById Ent.id c.ents e.id, ix := ix } e)
 
 /-- `modify_vehicle_safe` / `modify_request_safe`: entity must exist; index follows the move -/
 def modify (parent : Cell → Cell) (c : Coll) (e : Ent) : Outcome Coll :=
@@ -120,8 +130,7 @@ end Coll
 
 def CollDict.wf (xs : CollDict) : Bool :=
   -- no duplicate cells, no empty cells, no duplicate ids inside a cell
-  (xs.map (·.1)).eraseDups.length == xs.length
-  && xs.all (fun p => !p.2.isEmpty && p.2.eraseDups.length == p.2.length)
+  decide (xs.map (·.1)).Nodup && xs.all (fun p => !p.2.isEmpty && decide p.2.Nodup)
 
 /-- every entity is listed at exactly its `f cell`, and nothing else is listed -/
 def CollDict.agrees (xs : CollDict) (ents : List (Nat × Cell)) (f : Cell → Cell) : Bool :=
@@ -130,7 +139,7 @@ def CollDict.agrees (xs : CollDict) (ents : List (Nat × Cell)) (f : Cell → Ce
 
 def Index.ok (parent : Cell → Cell) (ix : Index) (ents : List (Nat × Cell)) : Bool :=
   ix.loc.wf && ix.search.wf && ix.loc.agrees ents id && ix.search.agrees ents parent
-  && (ents.map (·.1)).eraseDups.length == ents.length
+  && decide (ents.map (·.1)).Nodup
 
 def Coll.ok (parent : Cell → Cell) (c : Coll) : Bool :=
   c.ix.ok parent (c.ents.map (fun e => (e.id, e.cell)))
